@@ -4,6 +4,7 @@ import (
 	"math/rand"
 	"os"
 	"path/filepath"
+	"strings"
 )
 
 // fileState is the content of one file as the crash model sees it.
@@ -87,6 +88,8 @@ func (ib *ImageBuilder) Apply(op PhysOp) {
 //	power0: only fsynced content
 //	powerR: per file a random prefix of the un-fsynced writes, the last applied one possibly torn
 //	power1: all un-fsynced writes but the last one of each file
+//	powerF: per file all or none of the un-fsynced writes (files lose their tail independently of each other;
+//	        the transaction log keeps it more often than not, the other files lose it more often than not)
 type Mode string
 
 // Materialise writes the image for the current point into dir and returns a description of the choice.
@@ -109,6 +112,16 @@ func (ib *ImageBuilder) Materialise(dir string, mode Mode, rng *rand.Rand) (map[
 		case "power1":
 			if n > 0 {
 				keep = n - 1
+			}
+		case "powerF":
+			if n > 0 {
+				q := 1 // keep with probability q/4
+				if strings.Contains(name, "/tx/") || strings.HasPrefix(name, "tx/") {
+					q = 3
+				}
+				if rng.Intn(4) < q {
+					keep = n
+				}
 			}
 		case "powerR":
 			if n > 0 {
